@@ -196,6 +196,12 @@ func runCheck(prop, tier string, seed int, t0 time.Time) int {
 		for a := range e.used {
 			assumptions[a] = true
 		}
+		// a precondition of an exported function excludes inputs of the claim: list it
+		if e.fc != nil && e.fn.Parent() == nil && token.IsExported(e.fn.Name()) {
+			for _, cl := range e.fc.Requires {
+				assumptions["precondition of exported "+e.fn.String()+" (inputs outside it are not covered): "+cl.Src] = true
+			}
+		}
 		for _, u := range e.unsup {
 			unsup[e.fn.String()+": "+u] = true
 		}
